@@ -1,7 +1,7 @@
 (* Property C13: uniformly controlled rotations implement the block-diagonal multiplexer.
    Only statements + `exact`; proofs live in UcrLocal / UcrSpec / UcrModel. *)
 From Coq Require Import Reals List QArith Qreals.
-From QV Require Import Sem Mat2 UcrLocal UcrSpec UcrModel.
+From QV Require Import Sem Mat2 UcrLocal UcrSpec UcrModel UcrRefute.
 Import ListNotations.
 Open Scope R_scope.
 
@@ -34,3 +34,10 @@ Theorem C13_eff_exact : forall skip, (forall x, skip x = true -> x = 0) ->
   forall k a j, (j < 2^k)%nat -> eff skip k a j = a j.
 Proof. exact eff_exact. Qed.
 Print Assumptions C13_eff_exact.
+
+(* the hypothesis (e = CX or r = RY) cannot be dropped: for RZ rotations with CZ entanglers the local 2x2 product is not the
+   requested rotation (angles (0, pi), control set) - which is why the property names only the three combinations *)
+Theorem C13_rz_cz_refuted :
+  mmul (entm EntCZ 1 b_ref) (cmat (ucr_nl RotZ EntCZ 1 a_ref) b_ref) <> Rm RotZ (a_ref (cidx 1 b_ref)).
+Proof. exact ucr_rz_cz_refuted. Qed.
+Print Assumptions C13_rz_cz_refuted.
